@@ -96,7 +96,9 @@ func rateStrings(maxLen int) hlib.Suite { return rateStringsOver("", rateAlpha, 
 // rateStringsWide: shorter strings over more symbols (all Go duration units, a
 // fourth digit, and the characters other number syntaxes use: hex, exponent,
 // digit separators).
-func rateStringsWide(maxLen int) hlib.Suite { return rateStringsOver("-20-symbols", rateAlphaWide, maxLen) }
+func rateStringsWide(maxLen int) hlib.Suite {
+	return rateStringsOver("-20-symbols", rateAlphaWide, maxLen)
+}
 
 func rateStringsOver(tag string, alpha []string, maxLen int) hlib.Suite {
 	return hlib.Suite{Name: fmt.Sprintf("rate-strings%s/len<=%d", tag, maxLen), Weight: 3, Run: func(r *hlib.Rec) {
